@@ -38,12 +38,21 @@ def cmdBuild (j : Json) : Except String Json := do
       return Json.mkObj [("rets", toJson (r0 :: rs))]
     | _ => return Json.mkObj [("rets", toJson [r0])]
 
+def cmdValidate (j : Json) : Except String Json := do
+  let p : Option Validate.VPlan ← match j.getObjVal? "plan" with
+    | .ok .null | .error _ => pure none
+    | .ok q => some <$> fromJson? q
+  match Validate.validate p with
+  | .ok _ => return "ok"
+  | .error e => return Json.str ("err:" ++ (toJson e).compress.replace "\"" "")
+
 def dispatch (j : Json) : Except String Json := do
   let cmd ← j.getObjValAs? String "cmd"
   match cmd with
   | "walk" => cmdWalk j
   | "attempts" => cmdAttempts j
   | "build" => cmdBuild j
+  | "validate" => cmdValidate j
   | "ping" => return "pong"
   | _ => throw s!"unknown cmd {cmd}"
 
